@@ -1,0 +1,56 @@
+//go:build verif
+
+package keyper
+
+import (
+	"context"
+
+	"github.com/jackc/pgx/v4"
+	"github.com/jackc/pgx/v4/pgxpool"
+	"github.com/tendermint/tendermint/rpc/client"
+
+	"github.com/shutter-network/rolling-shutter/rolling-shutter/keyper/database"
+	"github.com/shutter-network/rolling-shutter/rolling-shutter/keyper/fx"
+	"github.com/shutter-network/rolling-shutter/rolling-shutter/keyper/kprconfig"
+	"github.com/shutter-network/rolling-shutter/rolling-shutter/keyper/smobserver"
+)
+
+// VerifGovCore gives the verification harness in /verif access to the body of the
+// KeyperCore.operateShuttermint loop (the keyper side of keyper-set governance) without
+// starting P2P, the HTTP API or any service. Add-only, compiled only with -tags verif.
+type VerifGovCore struct {
+	kpr *KeyperCore
+}
+
+// VerifNewGovCore builds a KeyperCore with exactly the fields KeyperCore.Start fills in before
+// it starts operateShuttermint: config, database pool, shuttermint client, the RPC message
+// sender signing with the configured Ethereum key, and a fresh ShuttermintState (a new
+// process: nothing but the database survives a restart).
+func VerifNewGovCore(config *kprconfig.Config, dbpool *pgxpool.Pool, shmcl client.Client) *VerifGovCore {
+	kpr := &KeyperCore{
+		config:            config,
+		dbpool:            dbpool,
+		shuttermintClient: shmcl,
+		messageSender:     fx.NewRPCMessageSender(shmcl, config.Ethereum.PrivateKey.Key),
+		shuttermintState:  smobserver.NewShuttermintState(config),
+	}
+	return &VerifGovCore{kpr: kpr}
+}
+
+// SyncApp is the first statement of the loop body of operateShuttermint.
+func (v *VerifGovCore) SyncApp(ctx context.Context) error {
+	return smobserver.SyncAppWithDB(ctx, v.kpr.shuttermintClient, v.kpr.dbpool, v.kpr.shuttermintState)
+}
+
+// HandleOnChainChanges is the second statement: handleOnChainChanges inside one transaction,
+// with the main-chain block number the loop would have fetched.
+func (v *VerifGovCore) HandleOnChainChanges(ctx context.Context, syncBlockNumber uint64) error {
+	return v.kpr.dbpool.BeginFunc(ctx, func(tx pgx.Tx) error {
+		return v.kpr.handleOnChainChanges(ctx, tx, syncBlockNumber)
+	})
+}
+
+// SendShutterMessages is the third statement.
+func (v *VerifGovCore) SendShutterMessages(ctx context.Context) error {
+	return fx.SendShutterMessages(ctx, database.New(v.kpr.dbpool), &v.kpr.messageSender)
+}
